@@ -1,4 +1,5 @@
 import MtailVerif.Proofs.Key
+import MtailVerif.Proofs.Skeletons
 /-! # C08 — Distinct label tuples always name distinct data
 
     `Key.encode` is the model of `buildLabelValueKey`, with the replacement pairs and the
@@ -38,5 +39,11 @@ theorem encode_injective_any (a b : List Bytes) : encode a = encode b ↔ a = b 
 
 /-- non-vacuity: tuples built from the separator and the escape byte are told apart -/
 example : encode [[120, 92], [121, 45, 122]] ≠ encode [[120, 45, 121, 92], [122]] := by decide
+
+/-! ### regenerated control skeletons (written by lib/wire_skeletons.py) -/
+/-- Obligations over regenerated facts: the functions this property's model stands for have the
+    control skeleton the model was written against (`Proofs/Skeletons.lean`, one `rfl` per function
+    or clause; DESIGN.md §11.6a) -/
+theorem metric_skeletons : Skeletons.MetricShape := Skeletons.metric_shape
 
 end MtailVerif.C08
